@@ -23,6 +23,7 @@ RULE = ("random base queries over 1-4 variables (depth<=4, full vocabulary; a fi
         "random composition of the listed rewrites plus permuted declaration order, selection order and domain order, and "
         "the several-arguments spelling of a top-level conjunction; caching on. Non-trivial: the base result is neither "
         "empty nor the whole product and at least one variant differs syntactically from the base. distinct by hash.")
+RULE += " Size cases (every tier): scale flavours of eqlmon/multi.gen_scale_case as base queries (big joins, self-joins, 6-9 operands, IN-lists over two same-type variables, 5-6 variables) with two variants each and a second evaluation of the base."
 LEVEL_TEXT = ("Metamorphic monitoring without an oracle: syntactic variants of one query are run on the real code and their "
               "row sets compared with each other, so an error shared by oracle and translation cannot hide a difference; "
               "cache/node monitors show that variants really took different paths (operand enumerated first, cache key order).")
